@@ -44,13 +44,20 @@ type fnTr struct {
 	nhoist int                     // number of hoists recorded in the whole body
 	ntmp   int                     // counter for temporaries t1, t2, ...
 	cur    token.Pos               // position of the current statement
-	bad    string                  // first reason why the function is unsupported
+	nloop  int                     // counter for loop1, loop2, ...
+	inLoop int                     // nesting depth of loops being translated
+
+	loopEnd map[ast.Stmt]string // end-of-body markers of loops: the recursive call
+	rec     bool                // the function is self-recursive (body of go_X_rec)
+
+	paramNames []string // Coq names of receiver and parameters
+	bad        string   // first reason why the function is unsupported
 
 	params, result, body string
 }
 
 func newFnTr(u *unit, fi *fnInfo, mayPanic bool) *fnTr {
-	return &fnTr{u: u, fi: fi, mayPanic: mayPanic, names: map[types.Object]string{}, synth: map[*ast.Ident]string{}}
+	return &fnTr{u: u, fi: fi, mayPanic: mayPanic, names: map[types.Object]string{}, synth: map[*ast.Ident]string{}, loopEnd: map[ast.Stmt]string{}}
 }
 
 // fail records the first reason for rejecting the function.
@@ -241,6 +248,7 @@ func (t *fnTr) run() {
 			name = s
 		}
 		params = append(params, fmt.Sprintf("(%s : %s)", name, t.coqType(n, v.Type())))
+		t.paramNames = append(t.paramNames, name)
 	}
 	if r := sig.Recv(); r != nil {
 		binder(r, fd.Recv)
@@ -252,6 +260,10 @@ func (t *fnTr) run() {
 
 	var rts []string
 	pre := ""
+	base := "  "
+	if t.rec {
+		base = "    " // inside "match rfuel with | S rfuel' =>"
+	}
 	for i := 0; i < sig.Results().Len(); i++ {
 		r := sig.Results().At(i)
 		rts = append(rts, t.coqType(fd.Type.Results, r.Type()))
@@ -259,7 +271,7 @@ func (t *fnTr) run() {
 		case r.Name() == "_":
 			t.fail(fd.Type.Results, "blank named result")
 		case r.Name() != "":
-			pre += fmt.Sprintf("  let %s := %s in\n", t.names[r], t.zero(fd.Type.Results, r.Type()))
+			pre += fmt.Sprintf("%slet %s := %s in\n", base, t.names[r], t.zero(fd.Type.Results, r.Type()))
 		}
 	}
 	t.result = strings.Join(rts, " * ")
@@ -269,7 +281,7 @@ func (t *fnTr) run() {
 	if t.mayPanic {
 		t.result = "outcome " + t.result
 	}
-	t.body = pre + t.stmts(fd.Body.List, "  ")
+	t.body = pre + t.stmts(fd.Body.List, base)
 }
 
 // assignNames gives every variable declared in the function a Coq name that
@@ -369,7 +381,9 @@ func (t *fnTr) stmts(ss []ast.Stmt, ind string) string {
 		return t.fail(nil, "control reaches the end of the function without return")
 	}
 	s, rest := ss[0], ss[1:]
-	t.cur = s.Pos()
+	if s.Pos().IsValid() {
+		t.cur = s.Pos()
+	}
 	if len(t.hoists) != 0 {
 		return t.fail(s, "internal error: hoisted operations were not emitted")
 	}
@@ -377,7 +391,13 @@ func (t *fnTr) stmts(ss []ast.Stmt, ind string) string {
 
 	switch s := s.(type) {
 	case *ast.EmptyStmt:
+		if call, ok := t.loopEnd[s]; ok {
+			return ind + call // fall-through at the end of a loop body
+		}
 		return next()
+
+	case *ast.ForStmt:
+		return t.forStmt(s, rest, ind)
 
 	case *ast.BlockStmt:
 		return t.stmts(join(s.List, rest), ind)
@@ -666,10 +686,101 @@ func (t *fnTr) ret(s *ast.ReturnStmt) string {
 	if !t.mayPanic {
 		return v
 	}
+	return valOf(v)
+}
+
+// valOf wraps a term (an atom or one parenthesised group) in Val.
+func valOf(v string) string {
 	if strings.HasPrefix(v, "(") {
 		return "Val " + v
 	}
 	return "Val (" + v + ")"
+}
+
+// forStmt translates "for { body }" and "for cond { body }" into a nested fix
+// over fuel, emitted in place.  The loop state (the fix parameters) are the
+// variables declared outside the loop that the body assigns; the fuel is one
+// more than the total length of the slice-typed state variables.  A return in
+// the body is a plain Val (the fix has the result type of the function); the
+// statements after the loop are inlined in the branch that leaves the loop.
+func (t *fnTr) forStmt(s *ast.ForStmt, rest []ast.Stmt, ind string) string {
+	if s.Init != nil || s.Post != nil {
+		return t.fail(s, "for loop with init or post statement")
+	}
+	if t.inLoop > 0 {
+		return t.fail(s, "nested loop")
+	}
+	t.nhoist++ // a loop can run out of fuel: the function is outcome-typed
+	var state []*types.Var
+	seen := map[*types.Var]bool{}
+	add := func(e ast.Expr) {
+		id, ok := unparen(e).(*ast.Ident)
+		if !ok || id.Name == "_" {
+			return
+		}
+		v, ok := t.u.info.Uses[id].(*types.Var)
+		if !ok || seen[v] {
+			return
+		}
+		if _, local := t.names[v]; !local {
+			return
+		}
+		if v.Pos() >= s.Pos() && v.Pos() < s.End() {
+			return // declared inside the loop
+		}
+		seen[v] = true
+		state = append(state, v)
+	}
+	ast.Inspect(s.Body, func(n ast.Node) bool {
+		switch n := n.(type) {
+		case *ast.AssignStmt:
+			for _, l := range n.Lhs {
+				add(l)
+			}
+		case *ast.IncDecStmt:
+			add(n.X)
+		}
+		return true
+	})
+	var binders, names, lens []string
+	for _, v := range state {
+		binders = append(binders, fmt.Sprintf("(%s : %s)", t.names[v], t.coqType(s, v.Type())))
+		names = append(names, t.names[v])
+		if isBytes(v.Type()) {
+			lens = append(lens, "length "+t.names[v])
+		}
+	}
+	if len(lens) == 0 {
+		return t.fail(s, "loop without a slice-typed state variable")
+	}
+	t.nloop++
+	name := fmt.Sprintf("loop%d", t.nloop)
+	marker := &ast.EmptyStmt{Implicit: true}
+	t.loopEnd[marker] = name + " lfuel' " + strings.Join(names, " ")
+	body := join(s.Body.List, []ast.Stmt{marker})
+	in := ind + "    "
+	head := fmt.Sprintf("%s(fix %s (lfuel : nat) %s {struct lfuel} : %s :=\n%s  match lfuel with\n%s  | O => Fuel\n%s  | S lfuel' =>\n",
+		ind, name, strings.Join(binders, " "), t.result, ind, ind, ind)
+	tail := fmt.Sprintf("\n%s  end) (S (%s)) %s", ind, strings.Join(lens, " + "), strings.Join(names, " "))
+	var inner string
+	if s.Cond == nil {
+		t.inLoop++
+		inner = t.stmts(body, in)
+		t.inLoop--
+	} else {
+		if tv, ok := t.u.info.Types[s.Cond]; !ok || !isBoolean(tv.Type) {
+			return t.fail(s.Cond, "condition that is not a boolean")
+		}
+		c := t.expr(s.Cond)
+		inner = t.emit(in, "", func() string {
+			t.inLoop++
+			a := t.stmts(body, in+"  ")
+			t.inLoop--
+			b := t.stmts(rest, in+"  ")
+			return fmt.Sprintf("%sif %s then\n%s\n%selse\n%s", in, c, a, in, b)
+		})
+	}
+	return head + inner + tail
 }
 
 // ---------------------------------------------------------------- expressions
@@ -880,10 +991,25 @@ func (t *fnTr) binary(e *ast.BinaryExpr, ty types.Type) string {
 			return t.fail(e, "operator %s on non-booleans", e.Op)
 		}
 		x := t.expr(e.X)
-		n := t.nhoist
+		outer := t.hoists
+		t.hoists = nil
 		y := t.expr(e.Y)
-		if t.nhoist != n {
-			return t.fail(e.Y, "operation that can panic in the right operand of %s", e.Op)
+		inner := t.hoists
+		t.hoists = outer
+		if len(inner) > 0 {
+			// The right operand can panic and is evaluated only when the left
+			// one does not decide: the whole expression becomes one hoisted
+			// computation that keeps the short circuit.
+			var sb strings.Builder
+			for _, h := range inner {
+				fmt.Fprintf(&sb, "bind (%s) (fun %s => ", h.comp, h.pat)
+			}
+			sb.WriteString(valOf(y))
+			sb.WriteString(strings.Repeat(")", len(inner)))
+			if e.Op == token.LAND {
+				return t.hoistOp("if " + x + " then " + sb.String() + " else Val false")
+			}
+			return t.hoistOp("if " + x + " then Val true else " + sb.String())
 		}
 		op := "&&"
 		if e.Op == token.LOR {
@@ -1131,10 +1257,20 @@ func (t *fnTr) userCall(fn *types.Func, recv ast.Expr, e *ast.CallExpr, nres int
 	if callee == nil {
 		return t.fail(e, "call of %s, which is not defined in this file", fn.Name())
 	}
+	sig := fn.Type().(*types.Signature)
+	if fn == t.fi.obj {
+		// self-call of a function translated as a Fixpoint over fuel
+		if !t.rec || recv != nil {
+			return t.fail(e, "recursion")
+		}
+		if !t.checkResults(e, sig, nres) {
+			return "?"
+		}
+		return t.hoistOp(app(t.fi.def.CoqName+"_rec rfuel'", t.args(e, sig, nil)))
+	}
 	if callee.def.Unsupported != "" || callee.def.Result == "" {
 		return t.fail(e, "call of untranslated %s", callee.def.CoqName)
 	}
-	sig := fn.Type().(*types.Signature)
 	if !t.checkResults(e, sig, nres) {
 		return "?"
 	}
